@@ -76,7 +76,18 @@ check('C11', 'model_checking',
       'TLA+ model checking (TLC) + exhaustive replay of TLC-enumerated applications and lookups',
       'DESIGN.md 4/C11')
 
-PENDING = ['C01', 'C02', 'C03', 'C04', 'C05', 'C06', 'C07', 'C08', 'C15', 'C16', 'C17', 'C18']
+check('C15', 'model_checking',
+      'SpyneModel.tla models a pool of models evolving by CustPrim/Customize/ChildAttrs/ChildAttrsAll/ArrayOf/Mandatory/'
+      'Subclass/AppendField/InsertField with explicit frame conditions; TLC checks the action properties Frame (no operation '
+      'changes the projection of a model it is not documented to change), DerivesOne, Requested and ParentsFirst over every '
+      'history up to the bound. Every reachable state is replayed from scratch on fresh real classes and the projection of '
+      'EVERY pooled model (attributes, ordered flat fields with the attributes and validation verdicts of each field type) is '
+      'compared with TLC\'s; longer pseudo-random histories executed on real classes are validated step by step by TLC '
+      '(TraceModel). Replay workers run under distinct PYTHONHASHSEED values.',
+      'TLA+ model checking (TLC) + state-graph replay + trace validation of derivation histories',
+      'DESIGN.md 4/C15')
+
+PENDING = ['C01', 'C02', 'C03', 'C04', 'C05', 'C06', 'C07', 'C08', 'C16', 'C17', 'C18']
 
 def main():
     import importlib
